@@ -236,3 +236,160 @@ fn close_case(compressing: bool, y: bool) {
         }
     }
 }
+
+// ---------------------------------------------------------------------------------------------
+// explicit hints vs. the entropy heuristic; CompHint::Detect leaves the content untouched
+// ---------------------------------------------------------------------------------------------
+// @h c16_explicit | ContentPackCreator::{add_content,detect_compression,get_open_cluster,open_cluster}; shannon_entropy replaced by M-ent (counts its calls, returns ANY f32 incl. NaN/inf) | pack compression (none / zstd) and an explicit hint (Yes / No), both symbolic, one 512 byte content | the content sits in the compressed open cluster iff the pack compresses and the hint is Yes, whatever the entropy heuristic would answer; the heuristic is not consulted and the content's reader is not touched | 1 content; natively (replay) the content is 512 bytes of maximal entropy and the real shannon_entropy runs
+// (a c16_detect twin for CompHint::Detect was tried: the sniffing read through Take/read_to_end gives no verdict in 15 min; sniff_case(.., 2) is kept for native use only)
+
+static mut ENT_CALLS: u32 = 0;
+static mut ENT_LAST_LE6: bool = false;
+static mut IN_POS: u64 = 0;
+static mut IN_READS: u32 = 0;
+
+fn mon_entropy(_data: &[u8]) -> f32 {
+    let e: f32 = kani::any();
+    unsafe {
+        ENT_CALLS += 1;
+        ENT_LAST_LE6 = e <= 6.0;
+    }
+    e
+}
+
+/// Under Kani a read returns no byte but moves the cursor (the model of "the head was sniffed");
+/// natively it yields `size` bytes 0,1,2,..: 8 bits of entropy per byte.
+struct NoisyInput {
+    size: u64,
+}
+impl Read for NoisyInput {
+    fn read(&mut self, buf: &mut [u8]) -> std::io::Result<usize> {
+        unsafe {
+            IN_READS += 1;
+            if is_symbolic() {
+                IN_POS = self.size;
+                return Ok(0);
+            }
+            let left = (self.size - IN_POS) as usize;
+            let n = std::cmp::min(left, buf.len());
+            let mut i = 0;
+            while i < n {
+                buf[i] = (IN_POS as usize + i) as u8;
+                i += 1;
+            }
+            IN_POS += n as u64;
+            Ok(n)
+        }
+    }
+}
+impl Seek for NoisyInput {
+    fn seek(&mut self, pos: SeekFrom) -> std::io::Result<u64> {
+        unsafe {
+            match pos {
+                SeekFrom::Start(p) => IN_POS = p,
+                SeekFrom::Current(d) => IN_POS = (IN_POS as i64 + d) as u64,
+                SeekFrom::End(d) => IN_POS = (self.size as i64 + d) as u64,
+            }
+            Ok(IN_POS)
+        }
+    }
+}
+impl InputReader for NoisyInput {
+    fn size(&self) -> Size {
+        Size::new(self.size)
+    }
+    fn get_file_source(self: Box<Self>) -> MaybeFileReader {
+        MaybeFileReader::No(self)
+    }
+}
+
+/// which: 0 = No, 1 = Yes, 2 = Detect (constant at every call site)
+fn sniff_case(compressing: bool, which: u8) {
+    let s: u64 = 512;
+    unsafe {
+        ENT_CALLS = 0;
+        IN_POS = 0;
+        IN_READS = 0;
+    }
+    let (mut c, taps) = creator(pick_compression(compressing));
+    let h = match which {
+        0 => CompHint::No,
+        1 => CompHint::Yes,
+        _ => CompHint::Detect,
+    };
+    match c.add_content(Box::new(NoisyInput { size: s }), h) {
+        Ok(a) => assert!(a.content_id.into_u32() == 0),
+        Err(e) => {
+            forget(e);
+            assert!(false, "VERIF: add_content failed");
+        }
+    }
+    let (d, f) = taps.sent();
+    assert!(d + f == 0, "VERIF: a cluster was closed although nothing was full");
+    let (calls, le6, pos, reads) = unsafe { (ENT_CALLS, ENT_LAST_LE6, IN_POS, IN_READS) };
+    let in_comp = match &c.comp_open_cluster {
+        Some(cl) => {
+            assert!(opened_compressed(cl), "VERIF: the cluster in the compressed slot was opened as raw");
+            assert!(cl.data_size().into_u64() == s);
+            true
+        }
+        None => false,
+    };
+    let in_raw = match &c.raw_open_cluster {
+        Some(cl) => {
+            assert!(!opened_compressed(cl), "VERIF: the cluster in the raw slot was opened as compressed");
+            assert!(cl.data_size().into_u64() == s);
+            true
+        }
+        None => false,
+    };
+    assert!(in_comp != in_raw, "VERIF: the content is not in exactly one open cluster");
+    assert!(pos == 0, "VERIF: the content's reader was handed to the cluster with its cursor moved (stored bytes would lose their head)");
+    if !compressing {
+        assert!(in_raw, "VERIF: a pack without compression put a content in a compressed cluster");
+        assert!(reads == 0 && calls == 0, "VERIF: a pack without compression sniffed the content");
+    } else if which == 1 {
+        assert!(in_comp, "VERIF: a content hinted 'compress' in a compressing pack was not put in a compressed cluster");
+        assert!(reads == 0 && calls == 0, "VERIF: an explicit hint was second-guessed by the entropy heuristic");
+    } else if which == 0 {
+        assert!(in_raw, "VERIF: a content hinted 'do not compress' was put in a compressed cluster");
+        assert!(reads == 0 && calls == 0, "VERIF: an explicit hint was second-guessed by the entropy heuristic");
+    } else if is_symbolic() {
+        assert!(calls == 1, "VERIF: Detect did not consult the heuristic exactly once");
+        assert!(in_comp == le6, "VERIF: Detect does not follow the heuristic's answer (<= 6.0 bits per byte -> compress)");
+    } else {
+        // natively: 512 bytes 0..255 twice = 8 bits per byte -> stored raw
+        assert!(in_raw, "VERIF: Detect compressed a content of maximal entropy");
+    }
+}
+
+fn explicit_body(canary: bool) {
+    let compressing: bool = kani::any();
+    let yes: bool = kani::any();
+    match (compressing, yes) {
+        (false, false) => sniff_case(false, 0),
+        (false, true) => sniff_case(false, 1),
+        (true, false) => sniff_case(true, 0),
+        (true, true) => sniff_case(true, 1),
+    }
+    kani::cover!(compressing && yes, "compress");
+    kani::cover!(compressing && !yes, "verbatim in a compressing pack");
+    if canary {
+        assert!(false, "CANARY");
+    }
+}
+
+vharness! {
+    #[kani::unwind(8)]
+    #[kani::stub(spmc::Sender::send, crate::creator::content_pack::clusterwriter::verif_c16w::stub_spmc_send)]
+    #[kani::stub(std::sync::mpsc::Sender::send, crate::creator::content_pack::clusterwriter::verif_c16w::stub_mpsc_send)]
+    #[kani::stub(crate::creator::content_pack::creator::shannon_entropy, crate::creator::content_pack::creator::verif_c16::mon_entropy)]
+    fn c16_explicit() { explicit_body(false) }
+}
+vharness! {
+    #[kani::unwind(8)]
+    #[kani::stub(spmc::Sender::send, crate::creator::content_pack::clusterwriter::verif_c16w::stub_spmc_send)]
+    #[kani::stub(std::sync::mpsc::Sender::send, crate::creator::content_pack::clusterwriter::verif_c16w::stub_mpsc_send)]
+    #[kani::stub(crate::creator::content_pack::creator::shannon_entropy, crate::creator::content_pack::creator::verif_c16::mon_entropy)]
+    fn c16_canary_explicit() { explicit_body(true) }
+}
